@@ -267,7 +267,7 @@ CLAIMED = {
         note="Trusted: Coq kernel + vm_compute; the model's readers are tied to the code by the exact correspondence of C16.",
         technique="Coq model of Display/FromStr + per-record round-trip theorems + char-exact Display correspondence + read-back and re-evaluation oracle"),
     "C14": dict(
-        text="Theorems over the balance model, without load matching, for one more EL_INSITU production component with "
+        text="Theorems over the balance model, with and without load matching, for one more EL_INSITU production component with "
              "non-negative values appended to ANY component set (values 0 or >= 0.01 kWh): C14_grid_delivered_never_grows, "
              "C14_exported_never_shrinks (total and cogenerated exports), and C14_nren_co2_never_grow: under any factor set "
              "that is regular for the electricity carrier before and after (the regulatory sets are, RerFacts.regular_*), "
@@ -275,15 +275,17 @@ CLAIMED = {
              "emissions of the electricity carrier do not grow, in step A and in step B; every regime of a time step is "
              "covered, including the switch of the priority branch caused by the new component (PvFacts.step_prio / "
              "step_pv_only / step_new_pv). C14_building assembles this over the carriers: for every component set, every "
-             "regulatory factor set (reg_set), k_exp in [0,1] and area, the building's non-renewable primary energy, "
+             "regulatory factor set (reg_set), k_exp in [0,1], area and both values of the load matching switch, the building's non-renewable primary energy, "
              "emissions (steps A and B) and grid-delivered energy do not grow. RER at k_exp = 0: "
              "C14_ren_never_shrinks_without_cogeneration + C14_ratio; C14_rer_with_renewable_cogeneration_refuted: the RER "
              "statement is false with renewable-fuelled cogeneration (known finding). The tie to the code: model/implementation correspondence on "
              "the generated bases, and the property itself evaluated on implementation outputs of (building, building + "
              "extra EL_INSITU line) pairs: four regulatory locations, k_exp in [0,1], with and without load matching. "
              "Load matching: C14_load_matching_used_production (g(u,p) = f(p/u) min(u,p) is non-decreasing and 1-Lipschitz "
-             "in p) and C14_load_matching_without_cogeneration (the carrier statements with load matching when electricity "
-             "has no cogeneration). PARTIAL: load matching together with cogeneration is decided by the differential run only.",
+             "in p), C14_load_matching_cogeneration_used (the cogenerated electricity used in a step, f((pv+chp)/u) "
+             "min(chp, u - min(pv,u)), does not grow with pv: the factor is 8u-Lipschitz above the use and decreasing below), "
+             "C14_load_matching_carrier (the carrier statements with load matching, cogeneration or not) and "
+             "C14_load_matching_without_cogeneration (adds the renewable part).",
         design_ref="DESIGN.md §6 C14",
         note="Trusted: Coq kernel + vm_compute; closed form of the weighted energy (RerFacts.carrier_closed) under 'regular' factor sets; model tied by differential testing.",
         technique="Coq proof (per-step case analysis, annual sums, closed form of weighted energy) + refutation witness + correspondence + metamorphic oracle"),
